@@ -11,6 +11,8 @@ Line-protocol driver for the AD model (property C02).
   dynid <n> (<q> <s>)…                   -> row:i:j,…
   sysmap <token lists: teqs… ; meqs… ; tv ; shocks ; mvars ; mshocks>   -> A=…|B=…|D=…|F=…|G=…|J=…
   stacked <spots> <cols> <eqs…>          -> entries
+  termspots <cols> <qids> <last> <n (q maxshift)…>  -> inx:q:c,…     (Terminator.__init__)
+  termjac <wrt spots> <terminit spots>   -> lhsCol:rhsCol,…            (create_terminal_jacobian_map)
 Entries print as `lhsRow:lhsCol:rhsRow:rhsCol`.
 -/
 import IrisVerif.Model.Expr
@@ -223,6 +225,23 @@ def step (line : String) : String :=
       let (tv, ws) ← pCounted pToken ws
       if !ws.isEmpty then none
       pure (",".intercalate ((dynid tv).map (fun r => toString r.1 ++ ":" ++ toString r.2.1 ++ ":" ++ toString r.2.2)))
+    | "termspots" :: ws => do
+      let (cols, ws) ← pCounted pInt ws
+      let (qids, ws) ← pCounted pNat ws
+      let (last, ws) ← pInt ws
+      let (ms, ws) ← pCounted (fun ws => do
+        let (q, ws) ← pNat ws
+        let (m, ws) ← pInt ws
+        pure ((q, m), ws)) ws
+      if !ws.isEmpty then none
+      let maxShift (q : Nat) : Int := match ms.find? (fun e => e.1 = q) with | some e => e.2 | none => 0
+      pure (",".intercalate ((terminalSpots cols qids maxShift last).map
+        (fun e => toString e.1 ++ ":" ++ showToken e.2)))
+    | "termjac" :: ws => do
+      let (spots, ws) ← pCounted pToken ws
+      let (terminit, ws) ← pCounted pToken ws
+      if !ws.isEmpty then none
+      pure (",".intercalate ((terminalJacMap spots terminit).map (fun e => toString e.1 ++ ":" ++ toString e.2)))
     | "sysmap" :: ws => runSysmap ws
     | "stacked" :: ws => runStacked ws
     | _ => none
